@@ -142,6 +142,7 @@ class VerilogTransformer(Transformer):
                         c.io_nodes[positions[name]] = n
                     if sd.kind == 'input':
                         Line(c, n, Node(c, name))
+        pending = []
         for target, source in assignments:  # pass 1.5: process signal assignments
             target_sigs = []
             if not isinstance(target, list): target = [target]
@@ -157,7 +158,10 @@ class VerilogTransformer(Transformer):
                     source_sigs += sig_decls[s].names
                 else:
                     source_sigs.append(s)
-            for t, s in zip(target_sigs, source_sigs):
+            pending += zip(target_sigs, source_sigs)
+        while len(pending) > 0:  # assignments may appear in any order: retry those whose source is not driven yet
+            deferred = []
+            for t, s in pending:
                 if t in c.forks:
                     assert s not in c.forks, 'assignment between two driven signals'
                     Line(c, c.forks[t], Node(c, s))
@@ -168,6 +172,10 @@ class VerilogTransformer(Transformer):
                     cnode = Node(c, f'__const{s[3]}_{const_count}__', f'__const{s[3]}__')
                     const_count += 1
                     Line(c, cnode, Node(c, t))
+                else:
+                    deferred.append((t, s))
+            if len(deferred) == len(pending): break
+            pending = deferred
         for stmt in args[2:]:  # pass 2: connect signals to readers
             if isinstance(stmt, Instantiation):
                 for p, s in stmt.pins.items():
